@@ -522,6 +522,7 @@ class TTCSave(Unit):
 # =============================================================================== E2 save configurations
 _FONTS = {}
 _SRC = {}
+_BUILD_ERRORS = {}
 LOAD = ("head", "maxp", "hhea", "vhea", "hmtx", "vmtx", "loca", "glyf", "CFF ", "CFF2")
 DEFAULT = [None, "T", 1, None]
 ALTS = [["woff", "woff2", "woff2h"], ["F", "N"], [0], [0, 2, 4]]
@@ -609,6 +610,68 @@ def edge_composites():
     return tinyfont.to_bytes(f)
 
 
+def edge_stale():
+    """The composite edge font with every derived field deliberately wrong in the file (written
+    with recalcBBoxes=False): a save with recalcBBoxes=True has to repair all of them."""
+    f = TTFont(io.BytesIO(edge_composites()), recalcBBoxes=False, recalcTimestamp=False)
+    glyf = f["glyf"]
+    for i, n in enumerate(f.getGlyphOrder()):
+        g = glyf[n]
+        g.expand(glyf)
+        if g.numberOfContours:
+            g.xMin, g.yMin, g.xMax, g.yMax = g.xMin + 3 + i, g.yMin - 5, g.xMax - 7, g.yMax + 11 + i
+    mx = f["maxp"]
+    mx.maxPoints, mx.maxContours, mx.maxCompositePoints, mx.maxCompositeContours = 1, 77, 2, 66
+    mx.maxComponentElements, mx.maxComponentDepth = 55, 9
+    for tag, names in (("hhea", ("advanceWidthMax", "minLeftSideBearing", "minRightSideBearing", "xMaxExtent")),
+                       ("vhea", ("advanceHeightMax", "minTopSideBearing", "minBottomSideBearing", "yMaxExtent"))):
+        for j, a in enumerate(names):
+            setattr(f[tag], a, 4321 + j)
+    h = f["head"]
+    h.xMin, h.yMin, h.xMax, h.yMax = 1, 2, 3, 4
+    h.flags ^= 2
+    return tinyfont.to_bytes(f)
+
+
+def edge_triplets():
+    """Simple glyphs whose successive point deltas sit on both sides of every threshold of the
+    glyf flag packing (255/256) and of the WOFF2 triplet encoding (64/65, 768/769, 1279/1280,
+    4095/4096), in every sign combination, on- and off-curve, with the overlap bit."""
+    from fontTools.ttLib.tables._g_l_y_f import Glyph, GlyphCoordinates
+    from fontTools.ttLib.tables import ttProgram
+
+    mags = [0, 1, 64, 65, 255, 256, 768, 769, 1279, 1280, 4095, 4096]
+    names = []
+    glyphs = {}
+    k = 0
+    for ax in mags:
+        pts, x, y = [(0, 0)], 0, 0
+        for ay in mags:
+            for sx, sy in ((1, 1), (-1, 1), (1, -1), (-1, -1)):
+                x += sx * ax
+                y += sy * ay
+                pts.append((x, y))
+                x -= sx * ax  # come back so that coordinates stay inside int16
+                y -= sy * ay
+                pts.append((x, y))
+        g = Glyph()
+        g.numberOfContours = 2
+        g.coordinates = GlyphCoordinates(pts)
+        g.flags = bytearray([(i % 3 != 1) | (0x40 if i == 0 and k % 2 else 0) for i in range(len(pts))])
+        g.endPtsOfContours = [len(pts) // 2, len(pts) - 1]
+        g.program = ttProgram.Program()
+        g.program.fromBytecode(b"\xb0\x00" * (k % 3))
+        name = "t%02d" % k
+        k += 1
+        names.append(name)
+        glyphs[name] = g
+    f = tinyfont.build({"kind": "ttf", "glyphs": names, "cmap": {}})
+    for n in names:
+        f["glyf"][n] = glyphs[n]
+        f["hmtx"].metrics[n] = (700 + len(n), 0)
+    return tinyfont.to_bytes(f)
+
+
 def edge_loca(target):
     """Glyph data whose even-padded size is exactly `target` (around the short-loca limit),
     made of cheap glyphs carrying long instruction strings; some glyphs have odd length."""
@@ -642,11 +705,23 @@ def load_e2_fonts():
         _FONTS["ttx:" + name] = (data, -1)
     for pname, spec in sorted(tinyfont.pool().items()):
         _FONTS["tiny:" + pname] = (tinyfont.build_bytes(spec), -1)
+    def gen(key, fn):
+        # generated fonts are written by the code under test: a failure here is a save that
+        # raised, reported by check() instead of killing the run
+        try:
+            _FONTS[key] = (fn(), -1)
+        except Exception as e:  # noqa: BLE001
+            import traceback
+
+            _BUILD_ERRORS[key] = "%s: %s\n%s" % (type(e).__name__, e, "".join(traceback.format_exception(e)[-4:]))
+
     _FONTS["tiny:vmtx"] = (tinyfont.build_bytes({"kind": "ttf", "shapes": "mixed", "composite": True, "vmtx": True}), -1)
     _FONTS["tiny:cff-vmtx"] = (tinyfont.build_bytes({"kind": "cff", "shapes": "mixed", "vmtx": True}), -1)
-    _FONTS["edge:composites"] = (edge_composites(), -1)
-    _FONTS["edge:loca-short-limit"] = (edge_loca(0x1FFFE), -1)
-    _FONTS["edge:loca-over-limit"] = (edge_loca(0x20000), -1)
+    gen("edge:composites", edge_composites)
+    gen("edge:stale-fields", edge_stale)
+    gen("edge:triplets", edge_triplets)
+    gen("edge:loca-short-limit", lambda: edge_loca(0x1FFFE))
+    gen("edge:loca-over-limit", lambda: edge_loca(0x20000))
     f = tinyfont.build(tinyfont.pool()["ttf-mixed"])
     from fontTools.ttLib.tables.DefaultTable import DefaultTable
 
@@ -714,6 +789,8 @@ class SaveConfigs(Unit):
         full = deviations(4)
         dev = deviations(k)
         dev_aots = deviations(1)
+        for key in sorted(_BUILD_ERRORS):
+            yield [key, "build"]
         for key in sorted(_FONTS):
             src = source_info(key)
             has_glyf = "glyf" in src.tables
@@ -734,6 +811,9 @@ class SaveConfigs(Unit):
 
     def check(self, case, rec):
         key, cfg = case
+        if cfg == "build":
+            rec.violation("generated-font-save-failed", "building and saving the generated font %s raised %s" % (key, _BUILD_ERRORS.get(key)))
+            return
         fl, ro, rb, pad = cfg
         data, idx = _FONTS[key]
         ctx = "%s flavor=%s reorderTables=%s recalcBBoxes=%s padding=%s" % (key, fl, ro, rb, pad)
